@@ -85,6 +85,9 @@ RACE_RULES = [
     ("C14.race_stmt_level", lambda a, b, loc: all(s.startswith(("blocc/statement.cpp:Statement::execute", "blocc/statement.h:Statement::level",
                                                                  "blocc/context.cpp:Context::onRuntimeError")) for s in (a, b))),
     ("C14.what_static_buffer", lambda a, b, loc: "Error::what" in loc or any(s.startswith("blocc/exception.h:Error::what") for s in (a, b))),
+    # the record's own copy of the message (static `bloc_error_msg`, written by snprintf in bloc_error_set, read by the host)
+    ("C14.error_record_process_wide", lambda a, b, loc: "bloc_error_msg" in loc or
+     any(x == "blocc/bloc_capi.cpp:bloc_error_set" and (y.startswith("?") or y.startswith("blocc/bloc_capi.cpp:bloc_")) for x, y in ((a, b), (b, a)))),
     ("C14.error_record_process_wide", lambda a, b, loc: "'bloc_error'" in loc or all(re.match(r"blocc/bloc_capi\.cpp:bloc_(error_set|error_raz|errno|strerror|execute2?|parse_\w+)$", s) for s in (a, b))),
     ("C14.race_rng", lambda a, b, loc: "Context::random" in loc or all(s.startswith("blocc/context.cpp:Context::random") for s in (a, b))),
     ("C14.race_type_volatile", lambda a, b, loc: all(re.match(r"blocc/(member/member_at\.(cpp|h):MemberATExpression::type|builtin/builtin_tab\.(cpp|h):TABExpression::type)", s) for s in (a, b))),
